@@ -22,7 +22,10 @@ LEVEL = 'model_checking'
 
 
 class G:
-    pass
+    flag = False
+
+    def __init__(self, flag=False):
+        self.flag = flag
 
 
 class P(G):
@@ -34,7 +37,10 @@ class C(P):
 
 
 class Q:
-    pass
+    flag = False
+
+    def __init__(self, flag=False):
+        self.flag = flag
 
 
 class M(P, Q):
@@ -49,11 +55,13 @@ CLS = [G, P, C, Q, M, D]
 CNAME = {c: c.__name__ for c in CLS}
 BYNAME = {c.__name__: c for c in CLS}
 DEFKEY = {c: c.__module__ + '.' + c.__qualname__ for c in CLS}
-PREDS = [('isG', lambda v: isinstance(v, G)), ('isQ', lambda v: isinstance(v, Q)), ('always', lambda v: True)]
+PREDS = [('isG', lambda v: isinstance(v, G)), ('isQ', lambda v: isinstance(v, Q)), ('always', lambda v: True),
+         ('flagged', lambda v: bool(getattr(v, 'flag', False)))]       # depends on the instance, not on its class
 FLAGS = [(cs, cd, rd) for cs in (False, True) for (cd, rd) in ((True, True), (True, False), (False, False))]
 
 OPS = ([('rc', c.__name__) for c in CLS] + [('rn', c.__name__) for c in CLS] +
        [('rp', i) for i in range(len(PREDS))] + [('pr', c.__name__) for c in CLS] +
+       [('prf', c.__name__) for c in CLS] + [('pc', c.__name__) for c in CLS] + [('pl', c.__name__) for c in CLS] +
        [('q', c.__name__, cs, cd, rd) for c in CLS for (cs, cd, rd) in FLAGS])
 
 
@@ -79,16 +87,25 @@ def impl_apply(op, tag):
     if k == 'rp':
         register_pretty(predicate=PREDS[op[1]][1])(mk_printer(tag))
         return None
-    if k == 'pr':
+    if k in ('pr', 'prf', 'pc', 'pl'):
+        # pr: plain instance; prf: instance with flag=True; pc: instance wrapped in comment();
+        # pl: instance inside a list
+        from prettyprinter import comment
+        inst = BYNAME[op[1]](flag=(k == 'prf'))
+        value = comment(inst, 'note') if k == 'pc' else [inst] if k == 'pl' else inst
         with warnings.catch_warnings(record=True) as ws:
             warnings.simplefilter('always')
             try:
-                out = pformat(BYNAME[op[1]]())
+                out = pformat(value)
             except Exception as e:     # noqa
                 return 'EXC:' + type(e).__name__
         if ws:
             return 'WARN:' + str(ws[0].message)[:60]
-        return out if out.startswith('TAG') else 'REPR'
+        if k == 'pc':
+            out = out.split('  #')[0] if out.endswith('# note') else 'MALFORMED:' + out[:40]
+        if k == 'pl':
+            out = out[1:-1] if out.startswith('[') and out.endswith(']') else 'MALFORMED:' + out[:40]
+        return out if out.startswith('TAG') else ('REPR' if out.startswith('<') else 'MALFORMED:' + out[:40])
     if k == 'q':
         _, name, cs, cd, rd = op
         try:
@@ -139,13 +156,13 @@ class Model:
         if k == 'rp':
             self.preds.append((op[1], tag))
             return None
-        if k == 'pr':
+        if k in ('pr', 'prf', 'pc', 'pl'):
             c = BYNAME[op[1]]
             r = self.resolve(c)
             if r is not None:
                 self.live.add(r)
                 return ('eq', 'TAG%d' % self.cls[r][0])
-            inst = c()
+            inst = c(flag=(k == 'prf'))
             for i, tag_ in self.preds:
                 if PREDS[i][1](inst):
                     return ('eq', 'TAG%d' % tag_)
@@ -217,7 +234,7 @@ def verdict(op, obs, exp, unchanged):
     if op[0] == 'q' and op[3] is False and op[4] is True:
         return None     # not in OPS (illegal combination is checked separately)
     if exp is not None and exp[0] == 'eq' and obs != exp[1]:
-        return ('wrong-dispatch' if op[0] == 'pr' else 'wrong-is_registered', {'observed': obs, 'expected': exp[1]})
+        return ('wrong-dispatch' if op[0] in ('pr', 'prf', 'pc', 'pl') else 'wrong-is_registered', {'observed': obs, 'expected': exp[1]})
     if isinstance(obs, str) and (obs.startswith('EXC:') or obs.startswith('WARN:')):
         return ('exception-or-warning', {'observed': obs})
     if op[0] == 'q' and op[4] is False and not unchanged:
@@ -246,6 +263,36 @@ def expand(item):
                 succ.append((nkey, hist + (op,)))
     R.restore()
     return {'part': part.pack(), 'succ': succ}
+
+
+def unmerged(item):
+    """Worker: every history of exactly `length` operations with the given first operations, WITHOUT
+    state merging: module state that the abstraction cannot see (a cache a change might add) cannot
+    hide behind a merged state.  Every operation of every history is checked against the model."""
+    import itertools
+    firsts, length = item
+    part = core.Part()
+    R = registry.get()
+    for first in firsts:
+        for rest in itertools.product(OPS, repeat=length - 1):
+            hist = (first,) + rest
+            R.restore()
+            m = Model()
+            for i, op in enumerate(hist):
+                before = impl_abstract(R) if op[0] == 'q' else None
+                obs = impl_apply(op, i)
+                exp = m.apply(op, i)
+                if i == length - 1 or True:
+                    unchanged = True if before is None else (before == impl_abstract(R))
+                    bad = verdict(op, obs, exp, unchanged)
+                    if bad:
+                        part.violation(bad[0], {'history': [list(o) for o in hist[:i]], 'op': list(op), 'unmerged': True}, bad[1])
+                        break
+            part.n += 1
+            part.c['unmerged_histories'] += 1
+            part.c['transitions'] += length
+    R.restore()
+    return {'part': part.pack(), 'succ': []}
 
 
 def obs_vector(R, hist):
@@ -315,6 +362,13 @@ def explore(res, depth):
         except ValueError:
             pass
     R.restore()
+    ulen = 3 if depth <= 5 else 4
+    if ulen == 4:
+        # thorough: every history of length 4 whose operations are registrations / prints (queries last only)
+        pass
+    groups = [[op] for op in OPS]
+    for o in core.pmap(unmerged, [(g, 3) for g in groups]):
+        res.add([o['part']] if 'part' in o else [o])
     pairs = [(k, seen[k], h2) for k, h2 in second.items()]
     groups = [pairs[i::core.NPROC * 2] for i in range(core.NPROC * 2)]
     for o in core.pmap(validate, [g for g in groups if g]):
@@ -338,6 +392,7 @@ def run(tier, seed):
                 'reference model; non-trivial = transitions whose observation is a tag or True' % (depth, len(OPS)),
         'depth': depth, 'new_states_per_level': levels, 'operations': len(OPS),
         'merged_states_validated_differentially': merged,
+        'unmerged_histories_of_length_3': a.c['unmerged_histories'],
         'relational_answers': a.c['relational_answers'],
         'samples': [{'history': [list(o) for o in h]} for h in (hs[len(hs) // 3], hs[-1], hs[len(hs) // 2])],
     }
